@@ -100,6 +100,52 @@ func loadAmmoUnbounded(P *Prog, c *Ctx) bool {
 				}
 			}
 		}
+		// ... or restored by a deferred closure armed before the scans: defer func() { d.config.X = saved }()
+		if !okRestore && okForce && len(restore) == 0 {
+			EachInstr(la, func(in ssa.Instruction) {
+				df, isD := in.(*ssa.Defer)
+				if !isD {
+					return
+				}
+				mc, isMC := df.Call.Value.(*ssa.MakeClosure)
+				if !isMC {
+					return
+				}
+				for _, sc := range scans {
+					if !InstrDominates(df, sc) {
+						return
+					}
+				}
+				clo := mc.Fn.(*ssa.Function)
+				n, good := 0, true
+				EachInstr(clo, func(i2 ssa.Instruction) {
+					v, isSt := StoreToField(i2, "Config", fld.name)
+					if !isSt {
+						return
+					}
+					n++
+					// the stored value: the field as loaded in LoadAmmo before the forcing store (captured)
+					okV := false
+					for _, r := range Roots(v, false) {
+						if ld, isLd := r.(ssa.Instruction); isLd && IsFieldLoad(r, "Config", fld.name) && ld.Parent() == la && InstrDominates(ld, force[0]) {
+							okV = true
+						}
+					}
+					if !okV {
+						good = false
+					}
+				})
+				iv := PathQuery{Fn: clo, Weight: func(i2 ssa.Instruction) (int, int) {
+					if _, isSt := StoreToField(i2, "Config", fld.name); isSt {
+						return 1, 1
+					}
+					return 0, 0
+				}}.Count()
+				if n >= 1 && good && iv.Is(1, 1) {
+					okRestore = true
+				}
+			})
+		}
 		rec(okRestore, k+":"+fld.name+"-restored-on-every-exit", "the saved config."+fld.name+" must be restored exactly once on every exit, after the last scan", la.Pos())
 	}
 	// (2) ErrAmmoLimit only under Limit != 0
